@@ -1206,7 +1206,7 @@ def C06(ctx):
             continue
         L_ = max(len(pathcheck_len(pth)) for (ph, it, pth) in u["hook_events"] if ph == "end")
         n = len(p["threads"])
-        for cfg in ([{"max_threads": k} for k in range(1, n)] + [{"max_branches": b} for b in sorted({1, 2, 3, max(1, L_ // 2), L_ - 1}) if 0 < b < L_]):
+        for cfg in ([{"max_threads": k} for k in range(1, n)] + [{"max_branches": b} for b in (range(1, L_) if L_ <= 30 else sorted({1, 2, 3, max(1, L_ // 2), L_ - 1})) if 0 < b < L_]):
             litems.append({"prog": p, "cfg": cfg})
             lmeta.append((p, cfg))
     LR = loomrun.run_items(os.path.join(ctx.work, "lim"), litems, jobs=jobs, tag="lim") if litems else []
